@@ -19,7 +19,7 @@ type SortedSliceSet[T cmp.Ordered] struct {
 // after calling NewSortedSliceSet.
 func NewSortedSliceSet[T cmp.Ordered](elems ...T) (set *SortedSliceSet[T]) {
 	slices.Sort(elems)
-	elems = slices.Compact(elems)
+	elems = slices.CompactFunc(elems, func(a, b T) (ok bool) { return cmp.Compare(a, b) == 0 })
 
 	return &SortedSliceSet[T]{
 		elems: elems,
